@@ -86,12 +86,43 @@ static int snk_octet(void *drv, unsigned char o)
     return 1;
 }
 
+/* drivers that only account for octets (putbig / getbig: N beyond INT_MAX, no memory behind it) */
+typedef struct { long long ks[8]; int nks, ik; uint64_t count; } BigD;
+static ssize_t big_step(BigD *d, size_t n)
+{
+    if (++budget > BUDGET) longjmp(bail, 1);
+    long long b = d->ik < d->nks ? d->ks[d->ik++] : 4;
+    if (b <= 0) return (ssize_t)b;
+    size_t k = b == 4 ? n : (size_t)b < n ? (size_t)b : n;
+    d->count += k;
+    return (ssize_t)k;
+}
+static ssize_t big_sink(void *drv, const void *buf, size_t n) { (void)buf; return big_step(drv, n); }
+static ssize_t big_source(void *drv, void *buf, size_t n) { (void)buf; return big_step(drv, n); }
+
 static ByteBuffer ext_bb;
 static ByteBuffer ext_getbuffer(Source *src) { (void)src; return ext_bb; }
 
 void adapter_exec(Ev *ev)
 {
     if (ev_is(ev, "@")) return;
+    if (ev_is(ev, "putbig") || ev_is(ev, "getbig")) {
+        BigD d; memset(&d, 0, sizeof d);
+        uint64_t n = get_w64(ev->a);
+        d.nks = (int)ev->a[4];
+        for (int i = 0; i < d.nks && i < 8; i++) d.ks[i] = ev->a[5 + i];
+        unsigned char *one = xblock(1);
+        budget = 0;
+        volatile long long rc = -9999;
+        if (setjmp(bail) == 0) {
+            if (ev_is(ev, "putbig")) { Sink k2; chunk_sink_init(&k2, big_sink, &d); rc = sink_put_chunk(&k2, one, (size_t)n); }
+            else { Source s2; chunk_source_init(&s2, big_source, &d); rc = source_get_chunk(&s2, one, (size_t)n); }
+        }
+        if (rc >= 0) { obs(ev, 1); put_w64(ev, (uint64_t)rc); } else { obs(ev, 0); obs(ev, rc); }
+        if (rc >= 0) put_w64(ev, d.count); else { obs(ev, 0); obs(ev, 0); obs(ev, 0); obs(ev, (long long)d.count); }
+        xfree(one);
+        return;
+    }
     static SrcD s; static SnkD k;
     memset(&s, 0, sizeof s); memset(&k, 0, sizeof k);
     int sk = (int)ev->a[0], kk = (int)ev->a[1];
